@@ -61,7 +61,7 @@ func TestC06Interleaved(t *testing.T) {
 		trace = nil
 		backend := rapid.SampledFrom(kv.Backends).Draw(t, "backend")
 		uni := kv.GenUniverse(t, rapid.IntRange(2, 10).Draw(t, "nuni"), false)
-		real, err := kv.OpenDB(backend, "", true)
+		real, err := kv.OpenDBOpts(backend, "", true, rapid.IntRange(0, 2).Draw(t, "discardWriteLogs") == 0)
 		if err != nil {
 			ev.Infra(t, "open: %v", err)
 		}
